@@ -8,8 +8,8 @@ from .model import Program, FuncInfo, ClassInfo, walk_local
 from .astutil import src
 from .callgraph import resolve_call, Ctx
 
-MUT_ADD = {"add", "append", "add_node", "add_edge", "setdefault", "update", "extend", "insert", "__setitem__"}
-MUT_DEL = {"pop", "remove", "discard", "remove_node", "remove_edge", "clear", "popitem", "difference_update", "__delitem__"}
+MUT_ADD = {"add", "append", "add_node", "add_edge", "setdefault", "update", "extend", "insert", "__setitem__", "add_nodes_from", "add_edges_from", "add_edges_from_no_data", "add_child", "add_parent"}
+MUT_DEL = {"pop", "remove", "discard", "remove_node", "remove_edge", "clear", "popitem", "difference_update", "__delitem__", "remove_edge_from_index", "remove_edges_from", "remove_nodes_from", "clear_edges"}
 
 
 def _field_of(e: ast.expr, selfname: str) -> Optional[str]:
